@@ -30,5 +30,5 @@ while read -r line; do
 done < seeded/neutral/checks.txt
 git -C /repo status --short
 # the translators ran on the changed trees: bring the generated Lean files back to /repo's own state
-python3 tools/gen_constants.py > /dev/null; python3 tools/gen_locks.py > /dev/null; python3 tools/gen_loops.py > /dev/null; python3 tools/gen_epoch.py > /dev/null
+python3 tools/gen_constants.py > /dev/null; python3 tools/gen_locks.py > /dev/null; python3 tools/gen_loops.py > /dev/null; python3 tools/gen_epoch.py > /dev/null; python3 tools/gen_unsafe.py > /dev/null
 cat $OUT
